@@ -7,11 +7,11 @@
       ANY width (validity of `w` — each argument fits its width — is a separate hypothesis),
     * every struct body, variant body and `Vec` given as a definite OR an indefinite-length
       array / map (`9f … ff`, `bf … ff`),
-  with two restrictions that the generated decoders impose:
+    * the two-element wrapper `[index, body]` of an enum likewise definite or indefinite (the
+      generated enum decoder rejected the indefinite form until the repair of K8),
+  with one restriction that the generated decoders impose:
     * strings stay definite (`String` / `&str` / byte strings are decoded with the definite
-      accessors; chunked strings are rejected by design),
-    * the two-element wrapper `[index, body]` of an enum stays a *definite* array — known
-      finding K8: the generated enum decoder rejects an indefinite-length wrapper.
+      accessors; chunked strings are rejected by design).
   Absent optional fields must be absent exactly as the encoder leaves them out (array: the array
   ends at the highest present index, gaps and nil fields are `null`; map: exactly the present
   fields, ascending) — this is `value w = specTy t v`, not a framing choice.
@@ -114,6 +114,13 @@ def isEmptyW (enc : Encoding) (body : WItem) : Bool :=
   | .array => (match arrItems body with | some [] => true | _ => false)
   | .map => (match mapItems body with | some [] => true | _ => false)
 
+/-- the two items of an enum's wrapper `[index, body]`: a definite array of two (any head width) or —
+    accepted since the repair of K8 — an indefinite-length one. -/
+def pairItems : WItem → Option (WItem × WItem)
+  | .array _ [kx, bx] => some (kx, bx)
+  | .arrayI [kx, bx] => some (kx, bx)
+  | _ => none
+
 /-- the field's codec: the nil-aware custom codec writes `null` or an unsigned integer. -/
 def rfWith (c : Codec) (rf : Val → WItem → Bool) (v : Val) (y : WItem) : Bool :=
   match c with
@@ -167,13 +174,13 @@ def rfFields : Fields → List Val → (Nat → Option WItem) → Bool
   | [], [], _ => true
   | _, _, _ => false
 termination_by structural fs => fs
-/-- the `k`-th variant: `index` alone (index_only), else the DEFINITE pair `[index, body]`. -/
+/-- the `k`-th variant: `index` alone (index_only), else the pair `[index, body]` (definite or indefinite). -/
 def rfVars (e : EAttr) : Variants → Nat → List Val → WItem → Bool
   | [], _, _, _ => false
   | (va, fs) :: _, 0, vs, w =>
       if e.indexOnly then isUintW va.idx w
-      else (match w with
-        | .array _ [kx, bx] =>
+      else (match pairItems w with
+        | some (kx, bx) =>
             isUintW va.idx kx &&
             (match untagW va.tag bx with
              | some body =>
@@ -184,7 +191,7 @@ def rfVars (e : EAttr) : Variants → Nat → List Val → WItem → Bool
                        | some cell => rfFields fs vs cell
                        | none => false))
              | none => false)
-        | _ => false)
+        | none => false)
   | _ :: rest, k + 1, vs, w => rfVars e rest k vs w
 termination_by structural vars => vars
 end
